@@ -200,6 +200,24 @@ pub fn parse(line: &str) -> Result<Scenario, String> {
   if threads.len() > MAXT {
     return Err("too many threads".into());
   }
+  for t in &threads {
+    for o in &t.ops {
+      if !op_ok(&base, t.producer, t.mode, o) {
+        return Err(format!("op {o} is not valid for a {} {} thread of {base}", if t.mode == Mode::Async { "async" } else { "sync" }, if t.producer { "producer" } else { "consumer" }));
+      }
+    }
+  }
+  let np = threads.iter().filter(|t| t.producer).count();
+  let nc = threads.len() - np;
+  let (maxp, maxc) = match base.as_str() {
+    "spsc" | "spscrv" => (1, 1),
+    "mpscb" | "mpscu" | "mpscrv" => (MAXT, 1),
+    "spmc" => (1, MAXT),
+    _ => (MAXT, MAXT),
+  };
+  if np > maxp || nc > maxc {
+    return Err(format!("{base} allows at most {maxp} producer / {maxc} consumer threads"));
+  }
   let num = |s: &str| s.parse::<u64>().map_err(|_| format!("bad number {s}"));
   let rest = &head[4..];
   Ok(Scenario {
@@ -214,6 +232,20 @@ pub fn parse(line: &str) -> Result<Scenario, String> {
     oneline: rest.contains(&"oneline"),
     threads,
   })
+}
+
+fn op_ok(base: &str, producer: bool, mode: Mode, op: &str) -> bool {
+  let asy = mode == Mode::Async;
+  let topic_num = |p: &str| op.len() > p.len() && op.starts_with(p) && op[p.len()..].chars().all(|c| c.is_ascii_digit());
+  match (base, producer) {
+    ("topic", true) => op == "y" || topic_num("p"),
+    ("topic", false) => {
+      matches!(op, "r" | "tr" | "rt" | "D" | "y" | "cl" | "cln" | "clk") || (asy && matches!(op, "rc" | "rp")) || topic_num("sub") || topic_num("uns")
+    }
+    (_, true) => matches!(op, "s" | "ts" | "y") || (asy && op == "sc"),
+    ("spmc", false) => matches!(op, "r" | "tr" | "rt" | "D" | "y" | "dc" | "cl") || (asy && matches!(op, "rc" | "rp")),
+    (_, false) => matches!(op, "r" | "tr" | "rt" | "D" | "y") || (asy && matches!(op, "rc" | "rp")),
+  }
 }
 
 pub struct OneRun {
